@@ -34,8 +34,26 @@ fn c14_replay(w: &serde_json::Value, tier: &str) -> String {
 fn c15_run(r: &mut Report, tier: &str) {
     c15gen::run(r, tier);
     c15dhcp::run(r, tier);
+    // E4: the server's demux handling several Discovers at the same moment on several workers
+    let thorough = tier == "thorough";
+    let mut v = vec!["dhcp:2", "dhcp:3"];
+    if thorough {
+        v.push("dhcp:4");
+    }
+    let sc: Vec<vkit::loomrun::LoomScenario> = v
+        .into_iter()
+        .map(|n| vkit::loomrun::LoomScenario {
+            name: n.to_string(),
+            preemptions: if thorough { 0 } else { 3 },
+            wall: std::time::Duration::from_secs(if thorough { 900 } else { 120 }),
+        })
+        .collect();
+    vkit::loomrun::run_into(&sc, r);
 }
 fn c15_replay(w: &serde_json::Value, tier: &str) -> String {
+    if let Some(s) = vkit::loomrun::replay(w) {
+        return s;
+    }
     if w["scenario"].is_string() {
         c15dhcp::replay(w, tier)
     } else {
